@@ -78,7 +78,8 @@ CHECKS = {
         'single and many-circuit jobs) and by the AQT sampler\'s JSON generator is interpreted gate by gate with those definitions by the compiled Lean interpreter '
         'and compared, up to global phase, with the Lean ordered product of the circuit\'s operation matrices (C01); measurement metadata is compared with the keys and '
         'targets of the circuit; cirq_ionq.Job.results().to_cirq_result() on little-endian histograms (QPU and simulator) is compared with the model of the encoding.',
-        'Trusted: Lean kernel; harness + driver; Spec/Vendor.lean as transcription of the public gate documentation; IonQ pauliexp, HTTP layers, Pasqal payloads '
+        'Trusted: Lean kernel; harness + driver; Spec/Vendor.lean as transcription of the public gate documentation (IonQ pauliexp included: single-term exponentials); the field names of the vendor '
+        'payloads are those the serializers emit (e.g. the native zz gate carries its angle as "phase", as pinned by the package\'s tests; the vendor API cannot be consulted offline); HTTP layers, Pasqal payloads '
         'and vendor-side parameter ranges are not modelled; parameterised gates are exercised on floats only.',
         'Lean 4 proof (kernel-decided exact gate identities; induction for the outcome encoding) + differential correspondence on real payloads',
         'DESIGN.md §3 C17',
